@@ -18,13 +18,21 @@ PLAN = {
         quick=[dict(test="TestC01Rapid", checks=3000), *shards("TestC01Enum", 4)],
         thorough=[*shards("TestC01Rapid", 12, checks=20000), *shards("TestC01Enum", 4)],
     ),
+    "C04": dict(
+        quick=[dict(test="TestC04Rapid", checks=4000), *shards("TestC04Enum", 4)],
+        thorough=[*shards("TestC04Rapid", 12, checks=40000), *shards("TestC04Enum", 4)],
+    ),
+    "C10": dict(
+        quick=[dict(test="TestC10Rapid", checks=1500), *shards("TestC10Aborts", 6)],
+        thorough=[*shards("TestC10Rapid", 12, checks=20000), *shards("TestC10Aborts", 4), dict(fuzz="FuzzC10", seconds=120)],
+    ),
     "C05": dict(
         quick=[SELF_IDL, dict(test="TestC05Rapid", checks=20000), *shards("TestC05Enum", 4)],
         thorough=[SELF_IDL, *shards("TestC05Rapid", 12, checks=200000), *shards("TestC05Enum", 16)],
     ),
     "C06": dict(
-        quick=[SELF_IDL, dict(test="TestC06Rapid", checks=20000), *shards("TestC06Mutants", 6), *shards("TestC06Seqs", 4)],
-        thorough=[SELF_IDL, *shards("TestC06Rapid", 8, checks=200000), *shards("TestC06Mutants", 16), *shards("TestC06Seqs", 8),
+        quick=[SELF_IDL, dict(test="TestC06Rapid", checks=20000), *shards("TestC06Mutants", 6), *shards("TestC06Seqs", 4), *shards("TestC06Bytes", 2)],
+        thorough=[SELF_IDL, *shards("TestC06Rapid", 8, checks=200000), *shards("TestC06Mutants", 16), *shards("TestC06Seqs", 8), *shards("TestC06Bytes", 2),
                   dict(fuzz="FuzzC06", seconds=120)],
     ),
     "C09": dict(
@@ -36,6 +44,8 @@ PLAN = {
 
 LEVEL = {
     "C01": "exploration",
+    "C04": "exploration",
+    "C10": "fault_enumeration",
     "C05": "exploration",
     "C06": "exploration",
     "C09": "exploration",
@@ -50,6 +60,23 @@ RULE = {
            "thorough) over 9 actions x 3 cut plans. Oracle: per-connection reference model (frames, handler results, dispatch order, "
            "connection fate). Non-trivial = a connection with >=2 calls containing a oneway call, an emitted continues-reply, a refused "
            "attempt, or a handler error; distinct by case hash.",
+    "C04": "case = one connection to a service with 0-5 registered interface names (dotted names, extensions/prefixes of one another, near "
+           "misses of org.varlink.service, names with leading/trailing/double dots, unicode) sending 1-10 calls whose method strings are derived "
+           "from the registered names by structural edits (drop/duplicate/move a dot, leading/trailing dot, extra label, case change, rune "
+           "insert/delete, interface name alone) or are arbitrary; 10% wrong-shape frames (method absent/null/non-string, non-object, trailing "
+           "garbage); plus the exhaustive set of all strings of length <=5 (6 thorough) over {a,b,.} against all 16 subsets of a 4-name registry. "
+           "Oracle: Route model (split at the last dot) -> exactly one dispatcher log entry with exactly the method part, or exactly one "
+           "InterfaceNotFound / InvalidParameter(method) / MethodNotFound frame carrying the predicted string; a sentinel GetInfo proves the "
+           "connection stayed usable. Non-trivial = a method string with >=2 dots, an empty part, or a one-edit near miss of a registered name.",
+    "C10": "case = a client byte stream of 1-7 frames (valid calls incl. more-sequences and replies up to 300 KB, byte-level mutants: truncate/flip/"
+           "delete/insert/trailing+leading garbage/duplicate/wrap, hostile constants such as null / {} / a call followed by '}', wrong-shape JSON, "
+           "random bytes, NUL inside a frame, unterminated tail) under a cut plan, with a client abort at a random offset / around a NUL / never "
+           "reading, on the fake listener + pipe or an abstract unix socket (half-close and read to EOF), ended by Shutdown or by an injected "
+           "accept-timeout expiry, with a probe connection doing GetInfo before/during/after. Plus a client abort at EVERY byte offset of 5 (7) "
+           "fixed streams. Oracle: reference model over the complete frames of the sent prefix (dispatch log, replies, no reply + EOF for the first "
+           "undecodable frame), active-connection count back to its prior value, serving ends with nil / ServiceTimeoutError, no library goroutine "
+           "left, process alive (case recorded before execution). Non-trivial = >=1 complete call followed by a malformed or truncated frame, or an "
+           "abort strictly inside a frame, or a client that never reads.",
     "C05": "trees: bounded-exhaustive (interfaces of 1-2 members over all struct/enum types of <=3 constructor nodes, <=2 fields) "
            "x 5 fixed layouts (compact, spaced, commented, CRLF, empty-comment) x rotating doc modes; plus rapid-generated trees "
            "(<=30 members, depth <=6) printed with a random string in every gap (spaces, tabs, CR, LF, CRLF, comments incl. empty "
@@ -73,6 +100,10 @@ RULE = {
 ASSUME = {
     "C01": ["interleavings of the N connections are sampled by the Go scheduler, not enumerated; the oracle is per connection so every interleaving is legal",
             "a hang is a connection that shows neither EOF nor the expected replies within 10 s (30 s on the confirming retry)"],
+    "C04": ["wire frames are decoded by the model with encoding/json mirror structs (same library as the implementation, own types)"],
+    "C10": ["on the in-memory transport the service end is wrapped so that arming a deadline after the peer closed is not an error (as on kernel sockets)",
+            "a crash of the test process is attributed to the library only when the panicking goroutine's stack contains library frames",
+            "hang = no EOF / no return within 10 s (30 s on the confirming retry)"],
     "C05": ["the grammar is the published varlink grammar intersected with what this repository's tests declare valid",
             "no whitespace is generated inside '[]', '[string]', '->', after '?' or ']', and only spaces/tabs between an error's name and its parameters",
             "doc strings are compared line-wise modulo surrounding blanks, only for a canonical block directly above the member"],
@@ -91,6 +122,19 @@ CLAIM = {
              "compared with a reference model of the reply discipline; a finite slice (flags x short scripts x cut plans) is enumerated exhaustively.",
         ref="DESIGN.md section 4, C01", technique="model-based property testing (rapid) with a per-connection reference model; bounded-exhaustive slice",
         note="white-box accessors injected by -overlay (install listener, read active count); connection interleavings are scheduler-sampled"),
+    "C04": dict(
+        text="Model-based property test of routing: generated registries x generated method strings (structural edits of registered names, "
+             "arbitrary strings, wrong-shape frames) against a routing model, observing the reply frames and which scripted dispatcher logged "
+             "which method name; all strings up to length 5 over {a,b,.} x all subsets of a 4-name registry enumerated exhaustively.",
+        ref="DESIGN.md section 4, C04", technique="model-based property testing (rapid) + bounded-exhaustive enumeration; reference router as oracle",
+        note="uses the shared protocol executor and reference model of C01"),
+    "C10": dict(
+        text="Fault enumeration by generated streams: mutated / wrong-shape / random client byte streams with an abort at generated offsets "
+             "(and at every byte offset of fixed streams), checked against the reference model for dispatch/no-reply/close, release of the "
+             "connection (count, Shutdown and idle-timeout both end serving), goroutine census, probe connection, process survival; "
+             "coverage-guided fuzzing of the stream in the thorough tier.",
+        ref="DESIGN.md section 4, C10", technique="fuzzing + property-based testing (rapid) with abort-offset enumeration; reference model + resource-release invariants as oracle",
+        note="a crash is caught through a pending-case file written before each execution"),
     "C05": dict(
         text="Generated-input search with a round-trip oracle: every tree of a bounded-exhaustive space and tens of thousands of random "
              "trees are printed under fixed and random layouts and must parse back to exactly that tree (order, names, constructors, "
